@@ -20,8 +20,8 @@ EXTENDS TraceSeq
 Rounds == SelectSeq(Rec, LAMBDA r : "scripts" \in DOMAIN r)
 Diag == IF "DIAG" \in DOMAIN IOEnv THEN IOEnv.DIAG = "1" ELSE FALSE
 
-VARIABLES rd, pos, dpos, rpos, T, pk
-lvars == <<rd, pos, dpos, rpos, T, pk, i>>
+VARIABLES rd, pos, dpos, rpos, opos, T, pk
+lvars == <<rd, pos, dpos, rpos, opos, T, pk, i>>
 
 R0 == Rounds[rd]
 ConnsOf(r) == ToSet(r.conns)
@@ -32,6 +32,7 @@ LInit ==
     /\ pos = [c \in ConnsOf(Rounds[rd]) |-> 0]
     /\ dpos = [c \in ConnsOf(Rounds[rd]) |-> 0]
     /\ rpos = [x \in ConnsOf(Rounds[rd]) |-> [s \in ConnsOf(Rounds[rd]) |-> 0]]
+    /\ opos = [c \in ConnsOf(Rounds[rd]) |-> 0]
     /\ T = FromSnap(Rounds[rd].pre, CfgOf(Rounds[rd].cfg))
     /\ pk = {}
 
@@ -48,8 +49,20 @@ IsSubBag(a, b) == \A e \in DOMAIN a : e \in DOMAIN b /\ a[e] <= b[e]
 TakeN(x, c, rl) == IF EndsHere(x) /\ Len(R0.relay[x][c]) - rpos[x][c] < Len(rl)
                   THEN Len(R0.relay[x][c]) - rpos[x][c] ELSE Len(rl)
 
+(* Replies to one connection's commands arrive in the order the commands were sent - the echoes of its own commands *)
+(* (PART, NICK, TOPIC, MODE, KICK ... announced to the issuer too, through its queue) included: own[c] is what    *)
+(* socket c received, in arrival order, leaving out what other connections' commands sent it.                    *)
+HasOwn == "own" \in DOMAIN R0
+OwnOut(c, out) == SelectSeq(out, LAMBDA m : m.to = c)
+OwnOK(c, out) ==
+    (HasOwn /\ ~EndsHere(c)) =>
+       LET o == OwnOut(c, out) IN
+       /\ opos[c] + Len(o) <= Len(R0.own[c])
+       /\ BagOf(Chunk(R0.own[c], opos[c], Len(o))) = BagOf(o)
+
 Explains(c, out) ==
-    \A x \in ConnsOf(R0) :
+    /\ OwnOK(c, out)
+    /\ \A x \in ConnsOf(R0) :
        LET d == DirectTo(out, x)
            rl == RelayTo(out, x)
        IN /\ dpos[x] + Len(d) <= Len(R0.direct[x])
@@ -71,17 +84,18 @@ StepOf(c) ==
        IF c \notin DOMAIN T.conns
        THEN (* the connection has ended: what it sent afterwards is lost *)
             /\ pos' = [pos EXCEPT ![c] = @ + 1]
-            /\ UNCHANGED <<dpos, rpos, T, pk>>
+            /\ UNCHANGED <<dpos, rpos, opos, T, pk>>
        ELSE IF KillsNow(c, cm)
        THEN /\ pos' = [pos EXCEPT ![c] = @ + 1]
             /\ pk' = IF \E x \in pk : x.v = T.users[cm.p[1][1]].host THEN pk
                       ELSE pk \cup {[v |-> T.users[cm.p[1][1]].host, killer |-> NickOf(T, c), comment |-> cm.p[2][1]]}
-            /\ UNCHANGED <<dpos, rpos, T>>
+            /\ UNCHANGED <<dpos, rpos, opos, T>>
        ELSE LET R == Apply(T, c, cm) IN
             /\ Explains(c, R.out)
             /\ pos' = [pos EXCEPT ![c] = @ + 1]
             /\ dpos' = [x \in ConnsOf(R0) |-> dpos[x] + Len(DirectTo(R.out, x))]
             /\ rpos' = [x \in ConnsOf(R0) |-> [rpos[x] EXCEPT ![c] = @ + TakeN(x, c, RelayTo(R.out, x))]]
+            /\ opos' = [opos EXCEPT ![c] = @ + Len(OwnOut(c, R.out))]
             /\ T' = R.st
             /\ UNCHANGED pk
     /\ UNCHANGED <<rd, i>>
@@ -93,8 +107,9 @@ KillObserved(x) ==
        THEN LET out == KillOut(x.v, x.killer, x.comment) IN
             /\ Explains(x.v, out)
             /\ dpos' = [y \in ConnsOf(R0) |-> dpos[y] + Len(DirectTo(out, y))]
+            /\ opos' = [opos EXCEPT ![x.v] = @ + Len(OwnOut(x.v, out))]
             /\ T' = Teardown(T, x.v)
-       ELSE UNCHANGED <<dpos, T>>
+       ELSE UNCHANGED <<dpos, opos, T>>
     /\ pk' = pk \ {x}
     /\ UNCHANGED <<rd, i, pos, rpos>>
 
@@ -109,6 +124,7 @@ LSpec == LInit /\ [][LNext]_lvars
 AllConsumed ==
     /\ \A c \in ConnsOf(R0) : pos[c] = Len(R0.scripts[c]) /\ dpos[c] = Len(R0.direct[c])
     /\ \A x \in ConnsOf(R0) : \A s \in ConnsOf(R0) : rpos[x][s] = Len(R0.relay[x][s])
+    /\ HasOwn => \A c \in ConnsOf(R0) : EndsHere(c) \/ opos[c] = Len(R0.own[c])
 Accepting == AllConsumed /\ pk = {} /\ T = FromSnap(R0.post, CfgOf(R0.cfg))
 
 CanStep(c) ==
